@@ -254,31 +254,32 @@ theorem hashWrite_writeAllWith {S : Type} (f : BlockFn) (innerWrite : S → Byte
 /-! ## contract of `flate2::Compress` and the `write_inner` loop -/
 
 /-- Assumed contract of the external compressor, relative to `IsStream z d` ("`z` is a complete
-zlib stream with content `d`"). `Inv s i o`: state `s` is what `init` becomes after consuming `i`
-and producing `o` in total, and `StreamEnd` has not been reported yet (ghost relation). -/
+zlib stream with content `d`"), for calls with the output room `deflate::Write` always offers
+(`BUF_SIZE`). `Inv s i o`: state `s` is what `init` becomes after consuming `i` and producing `o` in
+total, and `StreamEnd` has not been reported yet (ghost relation). -/
 structure CompressorOk (C : Compressor) (IsStream : Bytes → Bytes → Prop) where
   Inv : C.σ → Bytes → Bytes → Prop
   /-- bound on the number of further calls that make progress, given the input still to offer -/
   rank : C.σ → Nat → Flush → Nat
   inv_init : Inv C.init [] []
   /-- `compress` does not return `Err` before the stream has ended -/
-  total : ∀ {s i o} (inp : Bytes) (cap : Nat) (fl : Flush), Inv s i o → ∃ r, C.compress s inp cap fl = some r
+  total : ∀ {s i o} (inp : Bytes) (fl : Flush), Inv s i o → ∃ r, C.compress s inp BUF_SIZE fl = some r
   /-- it reads at most the input and writes at most the output slice -/
-  bounded : ∀ {s i o inp cap fl r}, Inv s i o → C.compress s inp cap fl = some r →
-    r.consumed ≤ inp.length ∧ r.produced.length ≤ cap
-  step : ∀ {s i o inp cap fl r}, Inv s i o → C.compress s inp cap fl = some r → r.status ≠ .streamEnd →
+  bounded : ∀ {s i o inp fl r}, Inv s i o → C.compress s inp BUF_SIZE fl = some r →
+    r.consumed ≤ inp.length ∧ r.produced.length ≤ BUF_SIZE
+  step : ∀ {s i o inp fl r}, Inv s i o → C.compress s inp BUF_SIZE fl = some r → r.status ≠ .streamEnd →
     Inv r.state (i ++ inp.take r.consumed) (o ++ r.produced)
   /-- `StreamEnd` is only reported for `Finish`, and then everything produced is a complete stream
   of everything consumed -/
-  stream_end : ∀ {s i o inp cap fl r}, Inv s i o → C.compress s inp cap fl = some r → r.status = .streamEnd →
+  stream_end : ∀ {s i o inp fl r}, Inv s i o → C.compress s inp BUF_SIZE fl = some r → r.status = .streamEnd →
     fl = .finish ∧ IsStream (o ++ r.produced) (i ++ inp.take r.consumed)
-  /-- with input on offer and room in the output a call makes progress -/
-  progress_none : ∀ {s i o inp cap r}, Inv s i o → inp ≠ [] → 0 < cap → C.compress s inp cap .none = some r →
+  /-- with input on offer (and the writer's whole output buffer as room) a call makes progress -/
+  progress_none : ∀ {s i o inp r}, Inv s i o → inp ≠ [] → C.compress s inp BUF_SIZE .none = some r →
     0 < r.consumed ∨ r.produced ≠ []
-  /-- with `Finish` and room in the output a call makes progress or ends the stream -/
-  progress_finish : ∀ {s i o inp cap r}, Inv s i o → 0 < cap → C.compress s inp cap .finish = some r →
+  /-- with `Finish` a call makes progress or ends the stream -/
+  progress_finish : ∀ {s i o inp r}, Inv s i o → C.compress s inp BUF_SIZE .finish = some r →
     r.status = .streamEnd ∨ 0 < r.consumed ∨ r.produced ≠ []
-  rank_decr : ∀ {s i o inp cap fl r}, Inv s i o → C.compress s inp cap fl = some r → r.status ≠ .streamEnd →
+  rank_decr : ∀ {s i o inp fl r}, Inv s i o → C.compress s inp BUF_SIZE fl = some r → r.status ≠ .streamEnd →
     (0 < r.consumed ∨ r.produced ≠ []) → rank r.state (inp.length - r.consumed) fl < rank s inp.length fl
 
 /-- `Writer` invariant: the sink holds exactly what the compressor produced for the input `i` -/
@@ -311,7 +312,7 @@ theorem writeInner_spec {C : Compressor} {IsStream : Bytes → Bytes → Prop} (
   | zero => intro w start buf fl i _ h; omega
   | succ fuel ih =>
     intro w start buf fl i hinv hrank
-    obtain ⟨r, hr⟩ := K.total buf BUF_SIZE fl hinv
+    obtain ⟨r, hr⟩ := K.total buf fl hinv
     obtain ⟨hc, hp⟩ := K.bounded hinv hr
     have hnp : ¬ r.produced.length > BUF_SIZE := by omega
     have hinner : (if r.produced.length > 0 then w.inner ++ r.produced else w.inner) = w.inner ++ r.produced := by
@@ -388,7 +389,7 @@ theorem writeInner_spec {C : Compressor} {IsStream : Bytes → Bytes → Prop} (
             cases hb : buf with
             | nil => rfl
             | cons a l =>
-              have := K.progress_none hinv (by rw [hb]; simp) BUF_SIZE_pos hr
+              have := K.progress_none hinv (by rw [hb]; simp) hr
               exact absurd this hprog
           refine ⟨_, 0, hret, by omega, by simp only [Writer.after_totalIn, hc0], Or.inl ⟨rfl, by rw [hbuf]; rfl, ?_⟩⟩
           have := hstep
@@ -396,7 +397,7 @@ theorem writeInner_spec {C : Compressor} {IsStream : Bytes → Bytes → Prop} (
           rw [hbuf]
           simpa [Writer.Ok, Writer.after] using this
         | finish =>
-          have := K.progress_finish hinv BUF_SIZE_pos hr
+          have := K.progress_finish hinv hr
           rcases this with h | h
           · exact absurd h hend
           · exact absurd h hprog
